@@ -4,7 +4,4 @@ import RexModel.Props.C02
 #print axioms Rex.C02.C02_confluent
 #print axioms Rex.C02.C02_step_records_schedule_independent
 #print axioms Rex.C02.C02_message_records_schedule_independent
-#print axioms Rex.C02.nb_future_implies_latest_break
-#print axioms Rex.C02.nb_future_implies_buffer_break
-#print axioms Rex.C02.takeWhile_append_of_terminator
-#print axioms Rex.C02.nbCount_needed_prefix
+#print axioms Rex.C02.C02_nbCount_needed_prefix
